@@ -162,6 +162,16 @@ def _handle_failure(res, c, repo, cfg, f, seed, sized, search=True):
     if sized:
         res["undecided"].append(dict(obligation=name, reason=f.get("reason", "bounded obligation not discharged")))
         return
+    if getattr(f.get("ob"), "kind", None) == "frame":
+        # the function read (or wrote) outside the frame its contract grants: a named obligation
+        # that held on the pinned tree now fails; there is no failing *input* to replay
+        res["violations"].append(dict(
+            obligation=name, confirmed=False, frame=True,
+            replay=dict(found=False, msg=(f["ob"].info or {}).get("msg"),
+                        note="frame condition of the contract breached: the real function reads a collaborator attribute the "
+                             "contract does not grant (or writes outside its declared sites); every functional obligation "
+                             "downstream of that read is undecided")))
+        return
     hint = None
     cex = dict(found=False, tried=0)
     if search:
@@ -386,7 +396,7 @@ def check_property(prop, tier, seed, jobs):
             if hit is not None:
                 known_hits.append((hit, res, v))
                 continue
-            if v["confirmed"]:
+            if v["confirmed"] or v.get("frame"):
                 violations.append((res, v, oid))
             else:
                 base = "%s|%s|%s" % (res["contract"], res["cfg"], run.base_name(v["obligation"]))
